@@ -149,7 +149,7 @@ theorem fireE_step_abs (s : DB) (o2 : List Reply) (e0 : Ent) (x0 : Engine.Hold) 
       unfold deferExpiry; rw [hld]; rfl
     obtain ⟨e1, e2⟩ := sim_fireE_live s sy.dbq sy.dbk sy.dbkt e0.key e0.rid k1 hT hl' hdf
     simp only []
-    exact ⟨e1, by rw [List.map_append, e2]⟩
+    exact ⟨e1, by rw [List.map_append, e2]; rfl⟩
   | false =>
     have hnone : (Key.abs (s.getKey e0.key)).holders.find? (·.hid == x0.hid) = none := by
       apply List.find?_eq_none.mpr
